@@ -82,7 +82,16 @@ META = {
             "every run; C08_rank's guard (pairwise disjoint sibling languages) is NOT established for them: a conservative "
             "literal-word test lists the sibling pairs it cannot separate (evidence: shipped_rules.order_sibling_overlaps; the "
             "list is complete, C08_shipped_overlaps_complete); that the test itself is conservative for the pattern model is "
-            "stated only (C08_overlap_test_sound_statement).",
+            "stated only (C08_overlap_test_sound_statement). Shipped runs (testing, harness/shipped_run.py): real patches "
+            "computed with get_rulebook(hw) over rows instantiated from the shipped *.order rule lines - every "
+            "%order_reverse rule of every *.order file: its row without the negation word removed, beside removed and added "
+            "rows of other top-level rules - are judged by Coq against the ordering rulebook Coq parses from the RAW lines "
+            "(not the one the code compiled): sorted, rank (one rule mentions the row) and the pin clause (Spec/P_C08s.v: "
+            "exactly one %order_reverse rule matches the removal directly and no ordinary rule mentions it with a greater "
+            "weight => key (+k, direct); PROVED of the model for any matcher: C08_rank_pinned). Weights use the regexp "
+            "sources of the pattern model (ysrc); a patch item is read as a removal when its row starts with the negation "
+            "word and old/new hold no such row; levels with a rule outside the modelled language are skipped unless a "
+            "literal first-word test excludes it; vendor %logic functions emitting negated direct commands are not modelled.",
 }
 IMPORTS = P.PIPE_IMPORTS + "\nFrom Annet Require Import Spec.P_C03 Spec.P_C08 Spec.P_C08meta."
 
@@ -402,6 +411,11 @@ def run(ctx):
     from .. import shipped
     ctx.coverage["shipped_rules"] = {"correspondence": shipped.correspondence(ctx, ID),
                                      "order_sibling_overlaps": shipped.overlap_tables(ID)}
+    # real patches computed with get_rulebook(hw) over rows instantiated from the shipped *.order rule lines (every
+    # %order_reverse rule: its row removed beside rows of other rules), judged by Coq against the ordering rulebook
+    # Coq parses from the RAW lines: sorted, rank, and the pin clause (Spec/P_C08s.v, C08_rank_pinned)
+    from .. import shipped_run
+    ctx.coverage["shipped_rules"]["runs"] = shipped_run.c08_stage(ctx, ID)
     ctx.assumptions += [
         "list.sort/sorted are stable sorts (CPython guarantee); the model uses stable insertion sort, which "
         "C08_stable_sort_unique shows is the only sorted stable permutation",
@@ -413,6 +427,9 @@ def run(ctx):
 def replay(ctx, doc):
     """Re-run the real implementation on the stored case and let Coq re-evaluate P_C08 and the agreements."""
     c = doc["replay"]["case"]
+    if "rules" not in c and "hw" in c:
+        from .. import shipped_run
+        return shipped_run.c08_replay(ctx, doc, ID)
     if "rules" not in c:
         print(c)
         return 1
